@@ -25,8 +25,11 @@ Definition first_is (x : chr) (s : str) : bool :=
 Definition last_is (x : chr) (s : str) : bool :=
   match last_opt s with Some y => N.eqb x y | None => false end.
 
-(* string[1..len-1] on a string of length >= 2 whose first and last characters are ASCII *)
-Definition strip_both (s : str) : str := removelast (tl s).
+(* &string[1..string.len() - 1] (identifier.rs:133,156): the slice panics unless the string
+   has at least two characters (its first and last characters are ASCII here, so byte and
+   character positions agree) *)
+Definition slice_inner (s : str) : out str :=
+  if (length s <? 2)%nat then Panic 133 else Ok (removelast (tl s)).
 
 Definition fold_case (ci : bool) (s : str) : str := if ci then str_ascii_lower s else s.
 
@@ -65,7 +68,7 @@ Definition into_identifier (s0 : str) : out identifier :=
     | None =>
       if str_eqb s [ch_star] then Ok PAny
       else if first_is ch_star s && last_is ch_star s then
-        Ok (PContains (fold_case ci (strip_both s)))
+        (do x <- slice_inner s; Ok (PContains (fold_case ci x)))
       else match strip_prefix [ch_star] s with
       | Some r => Ok (PEndsWith (fold_case ci r))
       | None =>
@@ -75,7 +78,7 @@ Definition into_identifier (s0 : str) : out identifier :=
         if (1 <? length s)%nat
            && ((first_is ch_quote s && last_is ch_quote s)
                || (first_is ch_squote s && last_is ch_squote s))
-        then Ok (PExact (fold_case ci (strip_both s)))
+        then (do x <- slice_inner s; Ok (PExact (fold_case ci x)))
         else Ok (PExact (fold_case ci s))
       end end
     end end end end end end;
